@@ -26,7 +26,7 @@ def fmt_coord(v, rng):
         return f"{v:.6f}"
     if style == 2:
         return repr(float(v))
-    return f"{v:g}"
+    return f"{v:.12g}"      # `g` with its default of 6 significant digits would round 1007.625 to 1007.62: the file must state the value
 
 
 def blanks(rng, wide):
